@@ -329,8 +329,15 @@ func (h *Runner) genRTX(cur uint32, toWAL bool) Step {
 		pg := uint32(1 + r.Intn(int(maxU32(st.NewSize, cur))))
 		st.Writes[pg] = h.nextContent()
 	}
-	for pg := cur + 1; pg <= st.NewSize; pg++ { // appended pages are always written
+	for pg := cur + 1; pg <= st.NewSize; pg++ { // appended pages are written ...
 		st.Writes[pg] = h.nextContent()
+	}
+	if st.NewSize > cur+1 && r.Chance(30) { // ... except the ones SQLite allocated and freed again within the transaction
+		for pg := cur + 1; pg <= st.NewSize; pg++ {
+			if pg > 1 && r.Chance(50) {
+				delete(st.Writes, pg)
+			}
+		}
 	}
 	if cur > 0 {
 		switch x := r.Intn(100); {
